@@ -771,19 +771,24 @@ func (vfs *OrefaFS) RemoveAll(path string) error {
 		return nil
 	}
 
-	if child.mode.IsDir() {
-		vfs.removeAll(absPath, child)
-	}
+	avfs.VerifBeforeLock(&parent.mu, true)
+	parent.mu.Lock()
+	defer parent.mu.Unlock()
 
-	child.remove()
+	vfs.removeAll(absPath, child)
 
 	delete(parent.children, fileName)
-	delete(vfs.nodes, absPath)
 
 	return nil
 }
 
+// removeAll removes the node and its descendants, each under its own lock
+// since open files read and write their node without holding vfs.mu.
 func (vfs *OrefaFS) removeAll(absPath string, rootNode *node) {
+	avfs.VerifBeforeLock(&rootNode.mu, true)
+	rootNode.mu.Lock()
+	defer rootNode.mu.Unlock()
+
 	if rootNode.mode.IsDir() {
 		for fileName, nd := range rootNode.children {
 			path := absPath + string(vfs.PathSeparator()) + fileName
